@@ -720,7 +720,7 @@ class Parser:
         return _ast.InlineFragment(
             type_condition=(
                 cast(_ast.NamedType, self.advance() and self.parse_named_type())
-                if lead.value == "on"
+                if lead.__class__ is Name and lead.value == "on"
                 else None
             ),
             directives=self.parse_directives(False),
@@ -760,7 +760,7 @@ class Parser:
         FragmentName : Name but not "on"
         """
         token = self.peek()
-        if token.value == "on":
+        if token.__class__ is Name and token.value == "on":
             raise _unexpected_token(token, token.start, self._lexer._source)
         return self.parse_name()
 
@@ -1053,7 +1053,7 @@ class Parser:
         """
         token = self.peek()
         types = []
-        if token.value == "implements":
+        if token.__class__ is Name and token.value == "implements":
             self.advance()
             self.skip(Ampersand)
             while True:
